@@ -769,6 +769,15 @@ func Visible(label string, fn func()) {
 	S.yield(&op{kind: opCall, fn: fn, label: label})
 }
 
+// Touch is a scheduling point without effect: the rewriter puts one in front of every statement
+// that writes memory other threads may reach, so that such writes interleave.
+func Touch() {
+	if S == nil || S.cur == nil || S.driverCtx || S.aborting {
+		return
+	}
+	S.yield(&op{kind: opCall, label: "touch"})
+}
+
 // Block parks the current thread until ready() holds, then runs fn atomically.
 func Block(label string, ready func() bool, fn func()) {
 	if S == nil {
